@@ -101,6 +101,8 @@ BUILDS = {
     "nohooks-fast": Build("nohooks-fast", profile="fast", hooks=False),
     # the crate's `std` feature instead of `alloc` (std-only code paths)
     "checked-std": Build("checked-std", features=["std", "x25519", "p256", "p384", "p521"]),
+    # neither alloc nor std: the crate's bare no_std configuration (allocating API absent)
+    "checked-noalloc": Build("checked-noalloc", features=["x25519", "p256", "p384", "p521"]),
 }
 
 
